@@ -80,7 +80,15 @@ func (rt *runtime) cmplEvaluateNodeStatement(node nodeStatement) Value {
 				rt.labels = nil
 			}
 		}()
-		return rt.cmplEvaluateNodeStatement(node.statement)
+		value := rt.cmplEvaluateNodeStatement(node.statement)
+		if value.kind == valueResult {
+			// A break that targets this label completes the labelled
+			// statement normally, whatever kind of statement it is (ES5 12.12).
+			if value.evaluateBreak([]string{node.label}) == resultBreak {
+				return value.completionValue()
+			}
+		}
+		return value
 
 	case *nodeReturnStatement:
 		if node.argument != nil {
